@@ -185,7 +185,9 @@ template <class T> static void o_cipher(void *p, env_t *e, unsigned klen)
     o->set_nonce(e->sec + 32, 16);
     if (len(e, 1)) o->encrypt(sink, e->sec + 64, ml, e->sec + 200, adl);
     LIVE(e, o);
-    if (e->path) o->clear(); else o->~T();
+    if (e->path) o->clear();
+    else if (len(e, 1)) o->~T();
+    else { ascon::aead *base = o; base->~aead(); vf_count("destroyed_through_base_pointer", 1); }   /* as delete on an ascon::aead* / unique_ptr<ascon::aead> does */
 }
 /* for path 1 the caller snapshots the storage after this function returns (after clear(), before the destructor);
  * the destructor is then run by cleanup() */
